@@ -710,7 +710,7 @@ class TorrentAssembler(MetaFile, ProgMixin):
         self.piece_layers = {}
         self.pieces = bytearray()
         self.files = []
-        self.hybrid = self.meta_version == "3"
+        self.hybrid = str(self.meta_version) == "3"
         size, file_list = utils.filelist_total(self.path)
         self.kws = {
             "progress": self.progress,
